@@ -18,7 +18,7 @@ def run(rep, tier, seed, replay):
     hbin = vlib.build_harness()
     satrun.build_driver()
     n = 4000 if tier == "thorough" else 900
-    p = vlib.sh("%s frags %d %d 2>/dev/null | %s" % (hbin, seed, n, satrun.DRIVER), timeout=3000)
+    p = vlib.sh("set -o pipefail; %s frags %d %d 2>/dev/null | %s" % (hbin, seed, n, satrun.DRIVER), timeout=3000)
     if p.returncode != 0:
         raise RuntimeError("frags run failed: " + p.stderr[-2000:])
     summ, hist, bads = {}, {}, []
@@ -29,8 +29,8 @@ def run(rep, tier, seed, replay):
             _, k, v = line.split(); hist[k] = int(v)
         elif line.startswith("BAD C06"):
             bads.append(satrun.parse_kv(line))
-    if not summ:
-        raise RuntimeError("no C06 summary: " + p.stdout[-1500:])
+    if not summ or "ENDFRAGS" not in p.stdout:
+        raise RuntimeError("frags run incomplete (no summary / end marker): " + p.stdout[-1500:])
     for b in bads:
         m = re.search(r" ms=(.*?) stack=", b["line"])
         rep.violation("c06:%s" % b.get("clause"), "type label contradicted by execution: %s on %s" % (b.get("clause"), m.group(1) if m else "?"),
